@@ -2285,6 +2285,9 @@ class Recipe:
 
                 step.to[0] = self.results[dest_name]
                 self.used.add(dest_name)
+                if isinstance(solvent, Container):
+                    # containers can change while baking the recipe
+                    solvent = self.results[solvent.name]
                 results = Container.create_solution(solute, solvent, dest_name, **kwargs)
                 if isinstance(solvent, Container):
                     self.used.add(solvent.name)
